@@ -125,14 +125,21 @@ func WithToken() OptionFn {
 		p := h.dataDir
 		p = path.Join(p, "token")
 
-		if _, err := os.Stat(p); os.IsNotExist(err) {
-			ioutil.WriteFile(p, []byte(uid), 0600)
-		} else if err != nil /* other error */ {
+		if data, err := ioutil.ReadFile(p); err != nil && !os.IsNotExist(err) {
 			return err
-		} else if data, err := ioutil.ReadFile(p); err != nil {
-			return err
-		} else {
+		} else if len(data) > 0 {
 			uid = string(data)
+		} else {
+			// no token yet (or an empty one left by an interrupted first
+			// start): write it to a temporary file and rename it into place,
+			// so the token file is either absent or complete
+			tmp := p + ".tmp"
+			if err := ioutil.WriteFile(tmp, []byte(uid), 0600); err != nil {
+				return err
+			}
+			if err := os.Rename(tmp, p); err != nil {
+				return err
+			}
 		}
 
 		h.token = uid
